@@ -266,16 +266,29 @@ func After(in ssa.Instruction) (*ssa.BasicBlock, int) { return in.Block(), idx(i
 // CanReach reports whether instruction b can execute after instruction a on
 // some path (a != b; same-block order respected; loops considered).
 func CanReach(a, b ssa.Instruction) bool {
-	found := false
 	blk, i := After(a)
-	_, _ = ReachesExitAvoiding(blk, i, func(in ssa.Instruction) bool {
-		if in == b {
-			found = true
-			return true
+	seen := map[*ssa.BasicBlock]bool{}
+	type st struct {
+		b *ssa.BasicBlock
+		i int
+	}
+	work := []st{{blk, i}}
+	for len(work) > 0 {
+		s := work[len(work)-1]
+		work = work[:len(work)-1]
+		for j := s.i; j < len(s.b.Instrs); j++ {
+			if s.b.Instrs[j] == b {
+				return true
+			}
 		}
-		return false
-	}, true)
-	return found
+		for _, succ := range s.b.Succs {
+			if !seen[succ] {
+				seen[succ] = true
+				work = append(work, st{succ, 0})
+			}
+		}
+	}
+	return false
 }
 
 // Deref strips one pointer level.
